@@ -154,6 +154,10 @@ def split_scripts(out):
 def run_many(scripts, timeout=600):
     """scripts: list of (name, [lines]). Runs the harness and the driver over
     shards in parallel. Returns ({name: impl_lines}, {name: model_lines}, problems)."""
+    names = [n for n, _ in scripts]
+    if len(set(names)) != len(names):
+        dup = sorted({n for n in names if names.count(n) > 1})[:5]
+        raise RuntimeError(f"script names must be unique (outputs are matched by name): {dup}")
     shards = [[] for _ in range(NCPU)]
     for i, s in enumerate(scripts):
         shards[i % NCPU].append(s)
